@@ -332,7 +332,12 @@ def convert_resize_1x1_to_add(op):
     quantization.zero_point = 0
     op.inputs[1] = op.inputs[0]
     op.set_input_tensor(create_const_tensor(name, shape, dtype, values, quantization=quantization), 0)
+    # Only the inputs have changed. The OFM shape must not be re-derived from the OFM tensor, which can be the
+    # (differently shaped) output of a bypassed memory only operator, e.g. a Reshape
+    ofm_shapes = op.ofm_shapes
     op.set_ifm_ofm_shapes()
+    if ofm_shapes:
+        op.ofm_shapes = ofm_shapes
     DebugDatabase.add_optimised(op, op)
 
     return op
